@@ -28,3 +28,10 @@ package txnoffsetcommit
 //@ wire ResponsePartition
 //@   layout v0..v2 Partition int32, ErrorCode int16
 //@   layout v3 _ struct{} @-1, Partition int32, ErrorCode int16
+
+//@ property C12
+// Routing (C12): which of the protocol message interfaces the request satisfies decides where the Transport sends it
+// (connPool.sendRequest tests BrokerMessage, then GroupMessage, then TransactionalMessage).
+//@ wire Request
+//@   implements protocol.GroupMessage
+//@   notimplements protocol.BrokerMessage
